@@ -68,7 +68,7 @@ def main():
         print(f"FUZZ-STATS cases={stats['cases']} nontrivial={len(stats['nontrivial'])} known={stats['known']}", flush=True)
 
     atexit.register(flush)
-    every = int(os.environ.get("HXV_FUZZ_STATS_EVERY", "2000"))
+    every = int(os.environ.get("HXV_FUZZ_STATS_EVERY", "250"))
 
     def one_counted(data):
         one(data)
